@@ -1,15 +1,14 @@
 CONSTANTS
   Variant = "fixed"
   XVariant = "fixed"
-  RuleIds = {21, 22, 23, 24, 25, 26, 33}
+  RuleIds = {21, 23, 25, 26}
   K = 2
   Toks <- TokS
   MaxParts = 2
   Methods = {"GET", "POST"}
-  Binds = {2, 3, 4}
+  Binds = {2, 4}
   WsKinds = {FALSE, TRUE}
   ExportEvery = 1
 INIT Init
 NEXT Next
 INVARIANT ImplInExpectedX
-INVARIANT AdapterOpsInContract
